@@ -1401,13 +1401,45 @@ def _ordinal_read(fn: ast.FunctionDef, call: ast.Call) -> int:
 # D6 COUNTER-GUARD
 
 
+def _count_down_form(fn: ast.FunctionDef) -> ast.FunctionDef:
+    """A counter that counts *up* to a total (`done = 0` ... `done += 1` ... `if done >= total`) is rewritten into the
+    counter of what is left (`left = total` ... `left -= 1` ... `if left <= 0`): left == total - done everywhere, so the
+    two programs make the same decisions.  Only when the counter is used in nothing but these three forms."""
+    fn = copy.deepcopy(fn)
+    cands = [a.targets[0].id for a in ast.walk(fn) if isinstance(a, ast.Assign) and len(a.targets) == 1 and isinstance(a.targets[0], ast.Name) and isinstance(a.value, ast.Constant) and a.value.value == 0 and not isinstance(a.value.value, bool)]
+    for u in cands:
+        uses = [x for x in ast.walk(fn) if isinstance(x, ast.Name) and x.id == u]
+        inits = [a for a in ast.walk(fn) if isinstance(a, ast.Assign) and len(a.targets) == 1 and isinstance(a.targets[0], ast.Name) and a.targets[0].id == u and isinstance(a.value, ast.Constant) and a.value.value == 0]
+        incs = [a for a in ast.walk(fn) if (isinstance(a, ast.AugAssign) and isinstance(a.op, ast.Add) and isinstance(a.target, ast.Name) and a.target.id == u and isinstance(a.value, ast.Constant) and a.value.value == 1) or (isinstance(a, ast.Assign) and len(a.targets) == 1 and isinstance(a.targets[0], ast.Name) and a.targets[0].id == u and isinstance(a.value, ast.BinOp) and isinstance(a.value.op, ast.Add) and isinstance(a.value.left, ast.Name) and a.value.left.id == u and isinstance(a.value.right, ast.Constant) and a.value.right.value == 1)]
+        tests = [c for c in ast.walk(fn) if isinstance(c, ast.Compare) and len(c.ops) == 1 and isinstance(c.left, ast.Name) and c.left.id == u and isinstance(c.comparators[0], ast.Name)]
+        totals = {c.comparators[0].id for c in tests}
+        n_uses = len(inits) + sum(1 if isinstance(a, ast.AugAssign) else 2 for a in incs) + len(tests)
+        if len(inits) != 1 or not incs or not tests or len(totals) != 1 or n_uses != len(uses):
+            continue
+        total = next(iter(totals))
+        if sum(1 for x in ast.walk(fn) if isinstance(x, ast.Name) and x.id == total and isinstance(x.ctx, ast.Store)) != 1:
+            continue
+        inits[0].value = ast.copy_location(ast.Name(id=total, ctx=ast.Load()), inits[0].value)
+        for a in incs:
+            if isinstance(a, ast.AugAssign):
+                a.op = ast.Sub()
+            else:
+                a.value.op = ast.Sub()
+        flip = {ast.GtE: ast.LtE, ast.Gt: ast.Lt, ast.Lt: ast.Gt, ast.LtE: ast.GtE, ast.Eq: ast.Eq, ast.NotEq: ast.NotEq}
+        for c in tests:
+            c.ops = [flip[type(c.ops[0])]()]
+            c.comparators = [ast.copy_location(ast.Constant(value=0), c.comparators[0])]
+    ast.fix_missing_locations(fn)
+    return fn
+
+
 @rule("D6", "COUNTER-GUARD: a remaining-sample counter cannot be overshot, and a data-driven stop while it is positive fails", ["C19", "C18", "C17"], floor=2, default_props=["C19"])
 def d6(ctx: Ctx):
     D = decoderfacts(ctx)
     found = 0
     for dec in ("rattoppm", "mgetoppm", "cm3toppm", "hrstoppm", "maxtoppm", "pixtopgm"):
         rel = DECODERS[dec]
-        fn = D.fn(dec, "convert")
+        fn = _count_down_form(D.fn(dec, "convert"))
         try:
             _need_modelled(ctx, "D6", dec, fn)
         except AnalysisError as e_:
